@@ -1205,3 +1205,34 @@ def tkey(t, depth=0):
     if k == "bin":
         return "%s@%s(%s,%s)" % (t.a[0], t.site, tkey(t.a[1], depth + 1), tkey(t.a[2], depth + 1))
     return tstr(t, depth)
+
+
+def edge_conditions(fn, target, pruned=()):
+    """branch conditions that hold on EVERY path entry -> target: list of (switch block, origin term, labels)
+    where labels is the list of labels (variant names / bools / ints) of the single successor edge of the
+    switch through which all paths to target go."""
+    out = []
+    for b, blk in enumerate(fn.blocks):
+        t = blk["t"]
+        if t["k"] != "switch" or blk["cleanup"] or b == target:
+            continue
+        if not dominates(fn, b, target, pruned):
+            continue
+        succ = fn.succs(b)
+        via = []
+        for s in succ:
+            # can target be reached from s without re-entering b?
+            if target in reach(fn, [s], avoid=[b], pruned=pruned):
+                via.append(s)
+        if len(via) == 1:
+            term, labels = switch_info(fn, b)
+            out.append((b, term, labels.get(via[0], [])))
+    return out
+
+
+def strip_not(term):
+    neg = False
+    while term.k == "un" and term.a[0] == "Not":
+        neg = not neg
+        term = term.a[1]
+    return term, neg
